@@ -16,14 +16,15 @@ META = {
             "list (ancestral reading). Tie: for generated acyclic evidence-free programs the real formula_to_bn is run; every "
             "choice-node table and OrCPT is compared with the Coq model's for the same clause; the real factors are multiplied "
             "out (Fractions) and all atom marginals compared with exact possible-world probabilities and ProbLog's own numbers.",
-    "note": "PARTIAL (C31_marginals_partial): the identity 'sum over all assignments of the product of the factors = ancestral "
-            "pass in a topological order' is not proved in Coq in general; it is checked by vm_compute on an example and, on "
-            "every run, numerically by the harness on the real networks. Output formats (hugin/xdsl/uai08/dot) are not covered: "
-            "factors are read through the problog.pgm API.",
+    "note": "C31_marginals: 'sum over all assignments of the product of all factors = ancestral pass = world semantics' is proved "
+            "for every network satisfying the boolean well-formedness wf_netb (duplicate-free atoms, heads among the atoms, "
+            "clauses in topological order); the harness evaluates wf_netb on (a topological permutation of the clauses of) every "
+            "real exported network. Output formats (hugin/xdsl/uai08/dot) are not covered: factors are read through the "
+            "problog.pgm API.",
 }
 
 HEADER = """From Coq Require Import QArith NArith List Bool.
-From PL.C31 Require Import ModelBN.
+From PL.C31 Require Import ModelBN ModelBNwf.
 Import ListNotations.
 Open Scope Q_scope.
 """
@@ -147,6 +148,50 @@ def enc_clause(cl, atom_id):
     return "(mkClause %s %s)" % (vf.coq_list(hs), body)
 
 
+def body_atom_names(t):
+    """names of the atoms of a clause body (same traversal as enc_body)"""
+    from problog.logic import And, Or, Not, Term
+    if isinstance(t, (And, Or)):
+        return body_atom_names(t.op1) + body_atom_names(t.op2)
+    if isinstance(t, Not):
+        return body_atom_names(t.child)
+    if isinstance(t, Term):
+        return [] if str(t) == "true" else [str(t)]
+    raise Unsupported("body %r" % (t,))
+
+
+def clause_names(cl):
+    """(head atom names, body atom names) of a clause of enum_clauses (same case split as enc_clause)"""
+    from problog.logic import Clause, Or, Term
+    if isinstance(cl, Clause):
+        heads = cl.head.to_list() if isinstance(cl.head, Or) else [cl.head]
+        body = body_atom_names(cl.body)
+    elif isinstance(cl, Or):
+        heads, body = cl.to_list(), []
+    elif isinstance(cl, Term):
+        heads, body = [cl], []
+    else:
+        raise Unsupported("clause %r" % (cl,))
+    return [str(h.with_probability()) for h in heads], body
+
+
+def topological_clause_order(clauses):
+    """Stable Kahn order of the clause indices such that for every suffix c :: t no body atom of c is a head of c or of
+    a clause of t (the hypothesis topo_okb of C31_marginals); None when there is none (cyclic network)."""
+    names = [clause_names(cl) for cl in clauses]
+    left, order = list(range(len(clauses))), []
+    while left:
+        pending = set()
+        for i in left:
+            pending.update(names[i][0])
+        pick = next((i for i in left if not pending.intersection(names[i][1])), None)
+        if pick is None:
+            return None
+        order.append(pick)
+        left.remove(pick)
+    return order
+
+
 def run_one(ctx, prog, cases, metas):
     src = prog["text"]
     try:
@@ -252,6 +297,20 @@ def run_one(ctx, prog, cases, metas):
             cases.append("check_or %s %s %s" % (vf.coq_N(atom_id(name)), prog_coq, pv))
             metas.append((src, "OrCPT of %s" % name))
             ctx.count("orcpt_multi_parent" if len(f.parentvalues) > 1 else "orcpt_single_parent")
+    # tie: the real network satisfies the hypothesis wf_netb of C31_marginals / C31_joint_normalised: the OrCPT variables
+    # are duplicate-free, every head atom is one of them, and the clauses admit a topological order (the theorem holds for
+    # every order satisfying wf_netb; a permutation only renumbers the choice nodes c_i)
+    order = topological_clause_order(clauses)
+    or_vars = [name for name, f in bn.factors.items() if hasattr(f, "parentvalues")]
+    ctx.count("tie_wf_net")
+    if order is None:
+        ctx.count("tie_wf_net_no_topological_order")
+        order = list(range(len(clauses)))
+    elif order == list(range(len(clauses))):
+        ctx.count("tie_wf_net_enum_order_already_topological")
+    cases.append("wf_netb %s %s" % (vf.coq_list([vf.coq_N(atom_id(n)) for n in or_vars]),
+                                    vf.coq_list([enc[i] for i in order])))
+    metas.append((src, "well-formedness (wf_netb) of the exported network, clause order %s" % (order,)))
 
 
 def run(ctx):
@@ -261,7 +320,9 @@ def run(ctx):
                        "has more than 2 values; all atom marginals are compared, not only the queries")
     ctx.assumptions += ["the network is read through problog.pgm (Factor.table, OrCPT.to_factor); the textual output formats are not checked",
                         "float tables are rounded to 1e-12 before the exact sum-product; comparison tolerance 1e-9",
-                        "sum over all assignments of the product of factors = ancestral pass: checked numerically here, not proved in Coq"]
+                        "C31_marginals is stated for clause lists in topological order: wf_netb is evaluated on a topological permutation of "
+                        "enum_clauses() (a permutation only renumbers the choice nodes; the real sum-product is order-independent "
+                        "and is checked numerically here)"]
     ctx.prove("C31/Props.v")
     cases, metas = [], []
     if ctx.replay:
